@@ -482,6 +482,16 @@ def _async_get_batch(iterator_queue: IterableQueue):
     raise StopAsyncIteration(*e.args) from e
 
 
+def _add_note(e: BaseException, note: str):
+  """Adds a note to the exception when it can take one."""
+  try:
+    e.add_note(note)
+  except Exception:  # pylint: disable=broad-exception-caught
+    # E.g., immutable exceptions (frozen dataclasses) or a custom `__notes__`:
+    # the note is only informative, the exception itself must get through.
+    logging.warning('chainable: %s', f'cannot add {note=} to {type(e)}.')
+
+
 def _release_and_notify(
     lock: threading.Lock | threading.Condition | threading.RLock,
     notify: threading.Condition,
@@ -637,7 +647,7 @@ class IteratorQueue(IterableQueue[_ValueT]):
     except StopIteration as e:
       raise e
     except Exception as e:  # pylint: disable=broad-exception-caught
-      e.add_note(f'Exception during dequeueing "{self.name}".')
+      _add_note(e, f'Exception during dequeueing "{self.name}".')
       logging.exception('chainable: %s', f'"{self.name}" dequeue failed.')
       raise e
     finally:
@@ -834,10 +844,11 @@ class IteratorQueue(IterableQueue[_ValueT]):
       iterator = iter(iterator)
     except Exception as e:  # pylint: disable=broad-exception-caught
       # The registered enqueuer cannot even start: this is an enqueue failure.
-      e.add_note(f'Exception during enqueueing "{self.name}".')
-      logging.exception('chainable: %s', f'"{self.name}" enqueue failed.')
+      # Recorded first: nothing may keep the failure from the dequeuers.
       self._exception = e
       self._stop_enqueue()
+      _add_note(e, f'Exception during enqueueing "{self.name}".')
+      logging.exception('chainable: %s', f'"{self.name}" enqueue failed.')
       raise e
     while not self.enqueue_done:
       try:
@@ -853,20 +864,22 @@ class IteratorQueue(IterableQueue[_ValueT]):
               f'"{self.name}" enqueue error ignored, stacktrace:',
           )
           continue
-        e.add_note(f'Exception during enqueueing "{self.name}".')
-        logging.exception('chainable: %s', f'"{self.name}" enqueue failed.')
+        # Recorded first: nothing may keep the failure from the dequeuers.
         self._exception = e
         self._stop_enqueue()
+        _add_note(e, f'Exception during enqueueing "{self.name}".')
+        logging.exception('chainable: %s', f'"{self.name}" enqueue failed.')
         raise e
       try:
         self.put(value)
       except Exception as e:  # pylint: disable=broad-exception-caught
         # A failing put (e.g. a timeout on a full queue) is never ignorable: the
         # element in hand would be dropped silently.
-        e.add_note(f'Exception during enqueueing "{self.name}".')
-        logging.exception('chainable: %s', f'"{self.name}" enqueue failed.')
+        # Recorded first: nothing may keep the failure from the dequeuers.
         self._exception = e
         self._stop_enqueue()
+        _add_note(e, f'Exception during enqueueing "{self.name}".')
+        logging.exception('chainable: %s', f'"{self.name}" enqueue failed.')
         raise e
 
 
@@ -992,10 +1005,11 @@ class AsyncIteratorQueue(IteratorQueue[_ValueT], AsyncIterableQueue[_ValueT]):
       raise
     except Exception as e:  # pylint: disable=broad-exception-caught
       # The registered enqueuer cannot even start: this is an enqueue failure.
-      e.add_note(f'Exception during async enqueueing {self.name}')
-      logging.exception('chainable: %s', f'{self.name} enqueue failed.')
+      # Recorded first: nothing may keep the failure from the dequeuers.
       self._exception = e
       self._stop_enqueue()
+      _add_note(e, f'Exception during async enqueueing {self.name}')
+      logging.exception('chainable: %s', f'{self.name} enqueue failed.')
       raise e
     # Like the sync enqueuer: stops pulling once the queue is stopped or failed.
     while not self.enqueue_done:
@@ -1010,10 +1024,11 @@ class AsyncIteratorQueue(IteratorQueue[_ValueT], AsyncIterableQueue[_ValueT]):
         self._stop_enqueue()
         raise
       except Exception as e:  # pylint: disable=broad-exception-caught
-        e.add_note(f'Exception during async enqueueing {self.name}')
-        logging.exception('chainable: %s', f'{self.name} enqueue failed.')
+        # Recorded first: nothing may keep the failure from the dequeuers.
         self._exception = e
         self._stop_enqueue()
+        _add_note(e, f'Exception during async enqueueing {self.name}')
+        logging.exception('chainable: %s', f'{self.name} enqueue failed.')
         if self.ignore_error:
           return
         raise e
